@@ -271,7 +271,8 @@ def phrases_through_variables(rep, per_form, modules=None, min_forms=8, tag="c03
 # the last name has letters whose upper-case form is shorter in UTF-8 (dotless i): whatever follows it on the line - a month name, a zone -
 # must still be found at the right place
 # and a three-word name whose words are names themselves (longest match; what follows a replaced multi-word name must still be looked at)
-NAMES = [["zorp"], ["zorp", "blip"], ["quux"], ["frob"], ["frob", "glorp"], ["snarf"], ["sıkı", "ılık"], ["snarf", "quux", "zorp"]]
+# and names with non-ASCII letters that do have another letter case (case-insensitive means: for them too)
+NAMES = [["zorp"], ["zorp", "blip"], ["quux"], ["frob"], ["frob", "glorp"], ["snarf"], ["sıkı", "ılık"], ["snarf", "quux", "zorp"], ["ölçü"], ["süt", "ölçüsü"]]
 if any(w in render.all_config_words() for n in NAMES for w in n):
     raise ToolError("a variable name of C03 collides with a configured word")
 
